@@ -828,9 +828,21 @@ namespace bloch::compiler {
         std::vector<std::string> required;
         if (!info.base.empty()) {
             const ClassInfo* base = findClass(info.base);
-            if (base)
-                required.insert(required.end(), base->abstractMethods.begin(),
-                                base->abstractMethods.end());
+            if (base) {
+                // in terms of this class: put(T) of Sink<T> is put(Dog) for 'extends Sink<Dog>'
+                for (const auto& sig : base->abstractMethods) {
+                    std::string required_sig = sig;
+                    if (!info.baseType.typeArgs.empty()) {
+                        for (const auto& kv : base->methods)
+                            for (const auto& bm : kv.second)
+                                if (bm.signature == sig)
+                                    required_sig = methodSignatureLabel(
+                                        bm.name,
+                                        memberTypesFrom(info.baseType, bm.owner, bm.paramTypes));
+                    }
+                    required.push_back(required_sig);
+                }
+            }
         }
         for (auto& kv : info.methods) {
             for (auto& m : kv.second) {
@@ -848,8 +860,15 @@ namespace bloch::compiler {
                                                  "static method '" + m.name +
                                                      "' cannot implement abstract base method");
                             }
-                            if (!paramTypesEqual(m.paramTypes, baseMethod->paramTypes) ||
-                                !typeEquals(baseMethod->returnType, m.returnType)) {
+                            TypeInfo viaBase = info.baseType.className.empty()
+                                                   ? combine(ValueType::Unknown, info.base)
+                                                   : info.baseType;
+                            if (!paramTypesEqual(m.paramTypes,
+                                                 memberTypesFrom(viaBase, baseMethod->owner,
+                                                                 baseMethod->paramTypes)) ||
+                                !typeEquals(memberTypeFrom(viaBase, baseMethod->owner,
+                                                           baseMethod->returnType),
+                                            m.returnType)) {
                                 throw BlochError(ErrorCategory::Semantic, m.line, m.column,
                                                  "implementation of abstract method '" + m.name +
                                                      "' has incompatible signature");
